@@ -120,34 +120,33 @@ func embedFamily(c *core.Ctx, cases []fmttie.Case, differs map[string]string) (g
 			items = append(items, item{cs, k, false, false})
 			reqs = append(reqs, drv.Req{Fn: "embed", Args: [][]byte{[]byte(fn[k]), []byte(an[k])}})
 		}
-		if !cs.SameStructure {
-			// the trees are not compared (the parser is not modelled), but the guards of the theorem are functions of the
-			// original tree alone: they decide whether the difference may be filed under a known shape
-			c.Hist("reparsed: formatted text parses to another node structure, trees not compared, guards evaluated")
-			for k := range fn {
-				if strings.HasPrefix(fn[k], "l4:a5:templ") {
-					items = append(items, item{cs, k, true, true})
-					reqs = append(reqs, drv.Req{Fn: "reparsed", Args: [][]byte{[]byte(fn[k]), []byte(an[k])}})
+		// reparsed: where the formatted text is read back with ANOTHER node structure the trees are compared only if all
+		// guards hold (then the model claims to know the re-parsed tree); where a guard fails the difference is reported
+		// under its shape by Run.  The guards are functions of the original tree alone and are evaluated for every template.
+		var an2 []string
+		if tf2, err := parser.ParseString(cs.P1); err == nil {
+			if enc2, ok, _ := astser.File(tf2); ok {
+				if x, ok3 := fileNodes(enc2); ok3 && len(x) == len(fn) {
+					an2 = x
+				} else if cs.SameStructure {
+					splitOK = false
 				}
 			}
-			continue
 		}
-		tf2, err := parser.ParseString(cs.P1)
-		if err != nil {
-			continue
+		if !cs.SameStructure {
+			c.Hist("reparsed: formatted text parses to another node structure")
 		}
-		enc2, ok, _ := astser.File(tf2)
-		if !ok {
-			continue
-		}
-		an2, ok3 := fileNodes(enc2)
-		if !ok3 || len(an2) != len(fn) {
-			splitOK = false
+		if an2 == nil && cs.SameStructure {
 			continue
 		}
 		for k := range fn {
 			if !strings.HasPrefix(fn[k], "l4:a5:templ") {
 				continue // reparse changes templates only
+			}
+			if an2 == nil {
+				items = append(items, item{cs, k, true, true}) // guards only: no re-parsed node to compare with
+				reqs = append(reqs, drv.Req{Fn: "reparsed", Args: [][]byte{[]byte(fn[k]), []byte(an[k])}})
+				continue
 			}
 			items = append(items, item{cs, k, true, false})
 			reqs = append(reqs, drv.Req{Fn: "reparsed", Args: [][]byte{[]byte(fn[k]), []byte(an2[k])}})
@@ -155,10 +154,10 @@ func embedFamily(c *core.Ctx, cases []fmttie.Case, differs map[string]string) (g
 	}
 	res := c.Model(reqs)
 	embedOK, reparsedOK := true, true
+	var retry []int // embed items that disagree: compared again with the generator side's expression texts gofmt-ed
 	nEmbed, nRep := 0, 0
 	guardFails = map[string]bool{}  // input name -> some template fails a guard
 	guardsKnown = map[string]bool{} // input name -> the guards of its templates were evaluated
-	compared := map[string]bool{}   // input name -> its templates went through the reparsed tie
 	for i, it := range items {
 		r := res[i]
 		where := fmt.Sprintf("%s, top-level node %d", it.cs.Name, it.node)
@@ -170,17 +169,7 @@ func embedFamily(c *core.Ctx, cases []fmttie.Case, differs map[string]string) (g
 			case len(r) == 3 && string(r[0]) == "ok" && string(r[2]) == "1":
 				c.Hist("embed: node agrees up to white space inside gofmt-ed expression text")
 			default:
-				embedOK = false
-				detail := "embed(decode fmtser n) differs from decode(astser n)"
-				if len(r) > 0 && string(r[0]) != "ok" {
-					detail += "; model: " + string(r[0])
-				}
-				if debug {
-					fmt.Fprintf(os.Stderr, "C08_DEBUG embed %s %s\n--- source\n%s\n", where, detail, it.cs.Src)
-				}
-				if c.NFails("embed: formatter AST maps to the generator AST of the same parse") < 3 {
-					c.Fail("tie", "embed: formatter AST maps to the generator AST of the same parse", "", map[string]any{"file": it.cs.Name, "node": it.node, "source": it.cs.Src}, detail)
-				}
+				retry = append(retry, i)
 			}
 			continue
 		}
@@ -193,9 +182,6 @@ func embedFamily(c *core.Ctx, cases []fmttie.Case, differs map[string]string) (g
 			continue
 		}
 		guardsKnown[it.cs.Name] = true
-		if !it.guardOnly {
-			compared[it.cs.Name] = true
-		}
 		if string(r[2])+string(r[3])+string(r[4]) != "111" {
 			guardFails[it.cs.Name] = true
 			if debug {
@@ -210,6 +196,10 @@ func embedFamily(c *core.Ctx, cases []fmttie.Case, differs map[string]string) (g
 		if it.guardOnly {
 			continue
 		}
+		if !it.cs.SameStructure && string(r[2])+string(r[3])+string(r[4]) != "111" {
+			c.Hist("reparsed: another node structure and a guard fails (no_call_after_text ...), trees not compared")
+			continue
+		}
 		if string(r[1]) == "1" {
 			c.Hist("reparsed: model tree = real re-parsed tree as the renderer reads it")
 			continue
@@ -221,6 +211,46 @@ func embedFamily(c *core.Ctx, cases []fmttie.Case, differs map[string]string) (g
 		}
 		if c.NFails("reparsed: model re-parse = real parse of the formatted text") < 3 {
 			c.Fail("tie", "reparsed: model re-parse = real parse of the formatted text", "", map[string]any{"file": it.cs.Name, "node": it.node, "source": it.cs.Src, "formatted": it.cs.P1}, detail)
+		}
+	}
+	// second pass of the embed tie: the formatter AST holds gofmt's OUTPUT for call expressions, attribute expressions and
+	// {{ }} blocks, and gofmt may move a comment across a comma; such nodes must agree once the same gofmt calls have been
+	// applied to the generator side of the same parse
+	if len(retry) > 0 {
+		var reqs2 []drv.Req
+		var idx []int
+		for _, i := range retry {
+			it := items[i]
+			var an []string
+			if enc, ok, _ := astser.File(gofmtExprs(it.cs.TF)); ok {
+				an, _ = fileNodes(enc)
+			}
+			fn, _ := fileNodes(it.cs.Enc)
+			if it.node < len(an) && it.node < len(fn) {
+				idx = append(idx, i)
+				reqs2 = append(reqs2, drv.Req{Fn: "embed", Args: [][]byte{[]byte(fn[it.node]), []byte(an[it.node])}})
+			} else {
+				idx = append(idx, i)
+				reqs2 = append(reqs2, drv.Req{Fn: "embed", Args: [][]byte{nil, nil}})
+			}
+		}
+		for k, r := range c.Model(reqs2) {
+			it := items[idx[k]]
+			if len(r) == 3 && string(r[0]) == "ok" && (string(r[1]) == "1" || string(r[2]) == "1") {
+				c.Hist("embed: node agrees after gofmt of the generator side's call / attribute / {{ }} expression texts (gofmt moved a comment)")
+				continue
+			}
+			embedOK = false
+			detail := "embed(decode fmtser n) differs from decode(astser n), also with gofmt-ed expression texts on the generator side"
+			if len(r) > 0 && string(r[0]) != "ok" {
+				detail += "; model: " + string(r[0])
+			}
+			if debug {
+				fmt.Fprintf(os.Stderr, "C08_DEBUG embed %s, top-level node %d %s\n--- source\n%s\n", it.cs.Name, it.node, detail, it.cs.Src)
+			}
+			if c.NFails("embed: formatter AST maps to the generator AST of the same parse") < 3 {
+				c.Fail("tie", "embed: formatter AST maps to the generator AST of the same parse", "", map[string]any{"file": it.cs.Name, "node": it.node, "source": it.cs.Src}, detail)
+			}
 		}
 	}
 	// the theorem's prediction on the real generator: guards hold on every template => formatting does not change the
@@ -243,7 +273,6 @@ func embedFamily(c *core.Ctx, cases []fmttie.Case, differs map[string]string) (g
 	}
 	c.Extra["embed_nodes"] = nEmbed
 	c.Extra["reparsed_templates"] = nRep
-	_ = compared
 	c.Oblige("correspondence", "both wire forms of every accepted input split into the same number of top-level nodes", splitOK, "")
 	c.Oblige("correspondence", "embed (formatter AST -> generator AST) agrees with the generator-side serialisation of the same parse, positions aside, on every top-level node of every accepted input", embedOK, "")
 	c.Oblige("correspondence", "embed(reparse_ws x) agrees with the real parse of the real formatter's output (trailing-space marks, Whitespace nodes as rendered, nesting) on every template of every accepted input with unchanged node structure", reparsedOK, "")
